@@ -47,6 +47,27 @@ CLAIMED = {
             "Theorem C13_partial; remnant carving and the NS-bin clause are decided by correspondence (model carve ops) and the sweep.",
             "np.linspace/np.geomspace trusted to 1e-12 of the model formulas; carving modelled, not proved.",
             "DESIGN §6 C13"),
+    "C02": ("Lean 4 proof about the stellar-evolution derivative model (single turn-off bin = first bin whose upper edge has turned off "
+            "and it contains the turn-off mass; flux ≤ 0; deposit = retention × flux in the IFMR's class and bin with the IFMR mass; "
+            "conservation and mass-never-gained corollaries) + exact-support correspondence on synthetic and recorded ODE states",
+            "Theorem C02_partial over every state/layout/time; derivative tied to the code by comparing which entries are non-zero, the class, "
+            "the bin index exactly and the values to 1e-11 (scale-aware) on >1800 states per quick run. Trajectory clauses are about exact "
+            "solutions (partial); they are additionally observed on dopri5 output rows.",
+            "IFMR functions enter the theorem as parameters (their range properties are C09); dopri5 trusted for the row-level sweep.",
+            "DESIGN §6 C02"),
+    "C03": ("Lean 4 proof of the escape derivative's identities (sums equal the rate in both branches and normalisations, uniform "
+            "fractional loss before core collapse, support/mean preservation/weight integral/secant slope rule after it, zero rate) "
+            "+ full-entry correspondence on both sides of the core-collapse time",
+            "Theorem C03_partial. The slope-implied mass change is only second-order accurate (known finding C03-slope-secant); the "
+            "time-integrated clause is checked on real runs.",
+            "Measured, not proved: slope-implied clause, N(t)=N0+∫rate on dopri5 output.",
+            "DESIGN §6 C03"),
+    "C18": ("Lean 4 proof of degree-one homogeneity of every building block (turn-off flux, both escape branches, ejection loop, kicks, "
+            "binned initial values) under the explicit proviso that no 0.1-object comparison flips + real derivative/construction pairs",
+            "Theorem C18_partial; on the real code: derivatives at (λy, λ·rate) vs λ·derivatives, construction pairs at tightened "
+            "integrator tolerance, IMF-N0 irrelevance and from_powerlaw equivalence bit-for-bit.",
+            "Solutions scale only for exact solutions; dopri5 at default tolerance is not scale-free on remnant bins (pairs run at 1e-10).",
+            "DESIGN §6 C18"),
 }
 
 NOT_YET = "check not built yet in this session (planned: see DESIGN §6); not claimed until its quick check is silent on the clean tree"
